@@ -73,6 +73,9 @@ def main(run):
                         reports.append(open(run.sc.path(f)).read()[:20000])
                 if reports:
                     run.extra.setdefault("race_reports", []).extend(reports[:2])
+                    keep = os.path.join(v.ROOT, "replays", "C20-race-%s-%d.txt" % (grp, cpu))
+                    os.makedirs(os.path.dirname(keep), exist_ok=True)
+                    open(keep, "w").write("\n".join(reports))
 
 
 LEVEL = "exploration"
